@@ -109,6 +109,11 @@ def sccs(nodes, succ):
 
 
 TAKEN = {}
+VIA = {}
+
+
+def _argkey(a):
+    return (a.get("l"), str(a.get("pr")))
 
 
 def classify_arg(f, arg):
@@ -168,6 +173,8 @@ def classify_arg(f, arg):
                                 w2.extend(rvalue_operands(p2))
                     TAKEN.setdefault(id(f), set()).update(seen_f)
                 walk = meth in WALK_OK
+                if not walk:
+                    VIA.setdefault((id(f), _argkey(arg)), set()).add(cn)
                 for x in payload["args"][:1] if walk else payload["args"]:
                     work.append((x, True if walk else has_proj))
     return params, lookups, state_fields, counter
@@ -214,6 +221,11 @@ def run_for(prog, roots, stop, name, known_ok):
                             best = best or ("state-taken", "arg%d is taken out of %s.%s (Option::take) for the duration of the call: a nested "
                                             "read of the slot finds it empty, so the re-entry depth is bounded" % (ai, stf[0][0].split("::")[-1], stf[0][1]))
                         continue
+                    via = sorted(VIA.get((id(f), _argkey(a)), ()))
+                    if recursive_ty and via and "SExpr" in ty and ty.startswith("alloc::vec::Vec<") and not any(pj for (_, pj) in params if False):
+                        # not a piece of the caller's input but something a function made out of it (parsed file content ...)
+                        why.append("arg%d is an owned value produced by %s(..): it is not a sub-structure of the caller's input" % (ai, via[0].split("::")[-1]))
+                        continue
                     if recursive_ty and any(pj for (_, pj) in params):
                         best = ("structural", "arg%d is a sub-structure of parameter %s" % (ai, sorted(p for p, pj in params if pj)))
                         break
@@ -222,8 +234,8 @@ def run_for(prog, roots, stop, name, known_ok):
                 key = "%s -> %s @%s" % (f.norm.split("::")[-1] if "{closure" not in f.norm else "::".join(f.norm.split("::")[-2:]), tgt.split("::")[-1], "")
                 ord_ = sum(1 for i in res.instances if i["key"].startswith(key))
                 ikey = "%s->%s#%d" % (f.norm, tgt, ord_)
-                res.inst(ikey, where="%s:%s" % (f.file, t.get("ln")), kind=best[0] if best else ("via-lookup-or-state" if any("lookup" in w or "stored state" in w for w in why) else "not-assessed"), why=(best[1] if best else "; ".join(why))[:160])
-                flagged = any(w.startswith("arg") and ("table lookup" in w or "stored state" in w) for w in why)
+                res.inst(ikey, where="%s:%s" % (f.file, t.get("ln")), kind=best[0] if best else ("via-lookup-or-state" if any("lookup" in w or "stored state" in w or "owned value" in w for w in why) else "not-assessed"), why=(best[1] if best else "; ".join(why))[:160])
+                flagged = any(w.startswith("arg") and ("table lookup" in w or "stored state" in w or "owned value produced" in w) for w in why)
                 ok = best is not None or not flagged
                 res.oblige(ok)
                 if not ok:
